@@ -25,12 +25,14 @@ import (
 	"github.com/bbva/qed/balloon/hyper"
 	"github.com/bbva/qed/consensus"
 	"github.com/bbva/qed/crypto/hashing"
+	"github.com/bbva/qed/protocol"
 	"github.com/bbva/qed/rocksdb"
 	"github.com/bbva/qed/storage"
 	"github.com/bbva/qed/storage/rocks"
 	"github.com/bbva/qed/verifx/ev"
 	"github.com/bbva/qed/verifx/fx"
 	"github.com/bbva/qed/verifx/hx"
+	"github.com/bbva/qed/verifx/nx"
 	"github.com/hashicorp/raft"
 )
 
@@ -525,6 +527,79 @@ func workers() int {
 	return 8
 }
 
+// nodeLevel: "restoring it into a fresh node": a REAL server (real raft with an empty log directory, real
+// API mux, child process) is started on the restored data directory and must accept the next event
+// with the next version.
+func nodeLevel(r *ev.Run) {
+	for _, pre := range [][]int{{1}, {2, 1}, {1, 1, 1, 2}} {
+		w, ok := replayPath(r, nil)
+		if !ok {
+			return
+		}
+		for _, k := range pre {
+			w.step(event{Kind: "add", K: k}, true)
+		}
+		w.step(event{Kind: "backup"}, true)
+		w.step(event{Kind: "add", K: 1}, true)
+		bk := w.m.backups[0]
+		backupDir := w.dir + "/backups"
+		w.close()
+		dst, rf := newDir("noderestore"), newDir("noderaft")
+		c := map[string]interface{}{"entriesBeforeBackup": pre}
+		if err := restoreLikeCmd(backupDir, bk.ID, dst); err != nil {
+			r.Violation("restoring an existing backup fails", c)
+			w.destroy()
+			continue
+		}
+		child, err := nx.Start(dst, rf)
+		r.Eval(1)
+		if err != nil {
+			r.Violation("a fresh server cannot be started on a restored backup: "+firstLine(err.Error()), c)
+		} else {
+			body, _ := json.Marshal(protocol.Event{Event: []byte("the next event")})
+			res, err := child.HTTP("api", "POST", "/events", body)
+			var snap protocol.Snapshot
+			switch {
+			case err != nil:
+				r.Violation("a fresh server started on a restored backup dies on the next insertion", c)
+			case res.Panic != "":
+				c["panic"] = firstLine(res.Panic)
+				r.Violation("a fresh server started on a restored backup cannot accept the next event (the request handler panics)", c)
+			case res.Status != 201 || json.Unmarshal(res.Body, &snap) != nil:
+				c["status"] = res.Status
+				r.Violation("a fresh server started on a restored backup refuses the next event", c)
+			case snap.Version != uint64(bk.Events):
+				c["got"], c["want"] = snap.Version, bk.Events
+				r.Violation("a fresh server started on a restored backup does not assign the version after the backup's to the next event", c)
+			default:
+				r.Outcome(fmt.Sprintf("fresh server on a backup of %d events accepted the next event", bk.Events))
+			}
+			child.Kill()
+		}
+		os.RemoveAll(dst)
+		os.RemoveAll(rf)
+		w.destroy()
+		r.Distinct(fmt.Sprint("node restore ", pre))
+	}
+}
+
+func firstLine(s string) string {
+	if i := strings.IndexByte(s, '\n'); i >= 0 {
+		s = s[:i]
+	}
+	if len(s) > 160 {
+		s = s[:160]
+	}
+	return s
+}
+
+func TestMain(m *testing.M) {
+	if nx.ChildMain() {
+		return
+	}
+	os.Exit(m.Run())
+}
+
 func replayPath(r *ev.Run, p []event) (*world, bool) {
 	w, err := newWorld(r)
 	if err != nil {
@@ -571,6 +646,9 @@ func TestC16(t *testing.T) {
 		w.destroy()
 		r.Finish()
 		return
+	}
+	if r.Mine(0) {
+		nodeLevel(r)
 	}
 	type node struct{ path []event }
 	level := []node{{nil}}
